@@ -32,6 +32,15 @@ theorem theirs_eq_base (base ours : List Bytes) (labels : Labels) (conflict : Co
   subst this
   exact merge_current_only base ours labels conflict ha hA
 
+/-- `same_change`: ours = theirs (and the diff, being a function of its inputs, delivers the same
+hunks for both) ⇒ in EVERY conflict style, marker size and resolution mode the merge does not
+panic, reports no conflict and yields exactly that text — including the zealously contracting
+modes and union. -/
+theorem same_change (base side : List Bytes) (labels : Labels) (conflict : Conflict)
+    (hs : List (Range × Range)) (h : DiffOf base side hs) :
+    ∃ ps, merge ⟨base, side, side⟩ labels conflict hs hs = .ok (.complete, ps) ∧ render ps = side.flatten :=
+  merge_same_change base side labels conflict hs h
+
 /-- the identities in terms of the texts: tokenising (`byte_lines_with_terminator`) and
 concatenating is the identity, so "yields theirs" is about the bytes of the file -/
 theorem lines_roundtrip (text : Bytes) : (linesWithTerminator text).flatten = text := lines_flatten text
@@ -117,7 +126,8 @@ theorem no_panic_forced_partial (base ours theirs : List Bytes) (labels : Labels
     ∃ r, merge ⟨base, ours, theirs⟩ labels (if pickOurs then .ours else .theirs) ha hb = .ok r :=
   merge_pick_ok base ours theirs labels pickOurs ha hb hA hB
 
-/-- … and no mode panics when one side equals the base (corollary of the identities). -/
+/-- … and no mode panics when one side equals the base or both sides are equal (corollary of the
+identities). -/
 theorem no_panic_one_side_partial (base side : List Bytes) (labels : Labels) (conflict : Conflict)
     (hs : List (Range × Range)) (h : DiffOf base side hs) :
     (∃ r, merge ⟨base, base, side⟩ labels conflict [] hs = .ok r) ∧
@@ -131,11 +141,5 @@ theorem no_panic_one_side_partial (base side : List Bytes) (labels : Labels) (co
 def C45_no_panic_full : Prop :=
   ∀ (base ours theirs : List Bytes) (labels : Labels) (conflict : Conflict) (ha hb : List (Range × Range)),
     DiffOf base ours ha → DiffOf base theirs hb → ∃ r, merge ⟨base, ours, theirs⟩ labels conflict ha hb = .ok r
-
-/-- The full `same_change` statement: stated, checked by the harness on the real code, not proved. -/
-def C45_same_change_full : Prop :=
-  ∀ (base side : List Bytes) (labels : Labels) (conflict : Conflict) (hs : List (Range × Range)),
-    DiffOf base side hs →
-    ∃ ps, merge ⟨base, side, side⟩ labels conflict hs hs = .ok (.complete, ps) ∧ render ps = side.flatten
 
 end GixModel.Props.C45
